@@ -359,8 +359,8 @@ class Program:
             want_exc = None
         except C.NegativeLength:
             want, st, want_exc = None, None, "ValueError"
-        except C.Diverges:
-            want, st, want_exc = None, None, "diverges"
+        except (C.Diverges, C.Undefined):
+            want, st, want_exc = None, None, "diverges"     # nothing is prescribed: only "terminates, no foreign exception" is judged
         r = self.counting_reader(bytes(data))
         r.chunked_reading_mode = chunked or self.ctx[name]
         mode0 = r.chunked_reading_mode
